@@ -18,7 +18,8 @@ Inductive op :=
 | OpSched (sol : solution)
 | OpEnd (w : wid) (t : tid) (how : endkind)
 | OpFailNext (w : wid) (t : tid)
-| OpTimer.
+| OpTimer
+| OpPrune.
 
 Definition init_sys (reserve maxfill : N) : sys :=
   mkSys (mkCore [] [] [] [] [] false 0 reserve maxfill) (mkHq [] 1) [].
@@ -78,6 +79,9 @@ Definition step (s : sys) (o : op) : res (sys * list out) :=
       end
   | OpTimer =>
       Ok (with_procs s (map (fun p => fold_left timer_fire (p_timers p) p) (s_procs s)), [])
+  | OpPrune =>
+      do lj <- live_jobs (h_jobs (s_hq s));
+      Ok (s, [OPrune lj (map p_id (s_procs s))])
   end.
 
 (** Run a whole history; a panic or a disabled operation ends it. *)
